@@ -8,13 +8,19 @@
            balanced so far (a body that pops down to the entry depth has misused the API, see DESIGN C21)
    saved   result of getState()
    err     "none" | "inconsistent" (RuntimeError of Context.__exit__)
+   robjs   one re-usable Context OBJECT per seed (created by the first Reenter): the children its seed sequence has handed out so far (-1:
+           no object yet).  Re-entering the same Context object pushes a FRESH generator of the same seed sequence (the draws repeat
+           from the start - "draws depend only on the seed") while the seed sequence itself, an object, keeps counting its children.
    hist    the behaviour, for replay (KeepHist) *)
 EXTENDS Integers, Sequences, TLC, Json
 CONSTANTS Seeds, MaxDepth, MaxOps, MaxSpawn, KeepHist, EmitHist
-VARIABLES stack, ctx, saved, err, nops, hist
-vars == <<stack, ctx, saved, err, nops, hist>>
-Entry(s) == [seed |-> s, spawned |-> 0, drawn |-> 0]
-Init == /\ stack = <<Entry(<<42>>)>> /\ ctx = <<>> /\ saved = <<>> /\ err = "none" /\ nops = 0 /\ hist = <<>>
+VARIABLES stack, ctx, saved, err, nops, hist, robjs
+vars == <<stack, ctx, saved, err, nops, hist, robjs>>
+Entry(s) == [seed |-> s, spawned |-> 0, drawn |-> 0, robj |-> 0]
+Init == /\ stack = <<Entry(<<42>>)>> /\ ctx = <<>> /\ saved = <<>> /\ err = "none" /\ nops = 0 /\ hist = <<>> /\ robjs = [s \in Seeds |-> -1]
+\* entries leaving the stack: a re-usable Context object keeps the child count of its seed sequence
+Recorded(removed) == [s \in Seeds |-> IF \E j \in 1..Len(removed) : removed[j].robj = s
+                                      THEN (LET j == CHOOSE i \in 1..Len(removed) : removed[i].robj = s IN removed[j].spawned) ELSE robjs[s]]
 Top == stack[Len(stack)]
 SetTop(st, e) == [st EXCEPT ![Len(st)] = e]
 \* Log must be the LAST conjunct of an action: it reads the primed stack to record the projection after the call
@@ -27,35 +33,43 @@ Log(op, arg, n, ok) == /\ nops' = nops + 1
                                   ELSE hist
 
 PushSeed(s) == /\ Guard /\ Len(stack) < MaxDepth /\ stack' = Append(stack, Entry(<<s>>))
-               /\ UNCHANGED <<ctx, saved, err>> /\ Log("push_seed", s, 0, TRUE)
+               /\ UNCHANGED <<ctx, saved, err, robjs>> /\ Log("push_seed", s, 0, TRUE)
 \* spawn_sseq(n) advances the parent's child counter; child i of this spawn is pushed
 SpawnPush(n, i) == /\ Guard /\ Len(stack) < MaxDepth /\ i < n /\ Top.spawned + n <= 2 * MaxSpawn
                    /\ stack' = Append(SetTop(stack, [Top EXCEPT !.spawned = @ + n]), Entry(Append(Top.seed, Top.spawned + i)))
-                   /\ UNCHANGED <<ctx, saved, err>> /\ Log("spawn_push", i, n, TRUE)
+                   /\ UNCHANGED <<ctx, saved, err, robjs>> /\ Log("spawn_push", i, n, TRUE)
 \* spawning without pushing still advances the parent's counter
 Spawn(n) == /\ Guard /\ Top.spawned + n <= 2 * MaxSpawn /\ stack' = SetTop(stack, [Top EXCEPT !.spawned = @ + n])
-            /\ UNCHANGED <<ctx, saved, err>> /\ Log("spawn", 0, n, TRUE)
+            /\ UNCHANGED <<ctx, saved, err, robjs>> /\ Log("spawn", 0, n, TRUE)
 Pop == /\ Guard /\ Len(stack) > 1 /\ stack' = SubSeq(stack, 1, Len(stack) - 1)
        /\ ctx' = [j \in 1..Len(ctx) |-> IF Len(stack) - 1 <= ctx[j].depth THEN [ctx[j] EXCEPT !.ok = FALSE] ELSE ctx[j]]
+       /\ robjs' = Recorded(<<Top>>)
        /\ UNCHANGED <<saved, err>> /\ Log("pop", 0, 0, TRUE)
 Draw(k) == /\ Guard /\ stack' = SetTop(stack, [Top EXCEPT !.drawn = @ + 1])
-           /\ UNCHANGED <<ctx, saved, err>> /\ Log("draw", k, 0, TRUE)
+           /\ UNCHANGED <<ctx, saved, err, robjs>> /\ Log("draw", k, 0, TRUE)
 Enter(s) == /\ Guard /\ Len(stack) < MaxDepth
             /\ ctx' = Append(ctx, [depth |-> Len(stack), top |-> Top, ok |-> TRUE])
-            /\ stack' = Append(stack, Entry(<<s>>)) /\ UNCHANGED <<saved, err>> /\ Log("enter", s, 0, TRUE)
+            /\ stack' = Append(stack, Entry(<<s>>)) /\ UNCHANGED <<saved, err, robjs>> /\ Log("enter", s, 0, TRUE)
+\* `with c:` for the SAME Context object c = Context(s) as in an earlier `with c:` (not while it is still open)
+Reenter(s) == /\ Guard /\ Len(stack) < MaxDepth /\ \A j \in 1..Len(stack) : stack[j].robj # s
+              /\ ctx' = Append(ctx, [depth |-> Len(stack), top |-> Top, ok |-> TRUE])
+              /\ stack' = Append(stack, [seed |-> <<s>>, spawned |-> (IF robjs[s] = -1 THEN 0 ELSE robjs[s]), drawn |-> 0, robj |-> s])
+              /\ robjs' = [robjs EXCEPT ![s] = IF @ = -1 THEN 0 ELSE @]
+              /\ UNCHANGED <<saved, err>> /\ Log("reenter", s, 0, TRUE)
 \* Context(spawn_sseq(n)[i])
 EnterSpawned(n, i) ==
             /\ Guard /\ Len(stack) < MaxDepth /\ i < n /\ Top.spawned + n <= 2 * MaxSpawn
             /\ LET par == [Top EXCEPT !.spawned = @ + n] IN
                  /\ ctx' = Append(ctx, [depth |-> Len(stack), top |-> par, ok |-> TRUE])
                  /\ stack' = Append(SetTop(stack, par), Entry(Append(Top.seed, Top.spawned + i)))
-            /\ UNCHANGED <<saved, err>> /\ Log("enter_spawned", i, n, TRUE)
+            /\ UNCHANGED <<saved, err, robjs>> /\ Log("enter_spawned", i, n, TRUE)
 \* __exit__: pop once, then compare depth; the same code path serves normal exit and exceptions
 ExitOne(st, cx) == [stack |-> SubSeq(st, 1, Len(st) - 1), ctx |-> SubSeq(cx, 1, Len(cx) - 1),
                     bad |-> Len(st) - 1 # cx[Len(cx)].depth]
 Exit == /\ Guard /\ Len(ctx) > 0 /\ Len(stack) > 1
         /\ LET r == ExitOne(stack, ctx) IN
              /\ stack' = r.stack /\ ctx' = r.ctx /\ err' = IF r.bad THEN "inconsistent" ELSE err
+        /\ robjs' = Recorded(<<Top>>)
         /\ UNCHANGED saved /\ Log("exit", 0, 0, ctx[Len(ctx)].ok)
 \* an exception raised in the body unwinds ALL open contexts, innermost first (defined for bodies sitting on their depth)
 Raise == /\ Guard /\ Len(ctx) > 0
@@ -63,10 +77,13 @@ Raise == /\ Guard /\ Len(ctx) > 0
               /\ \A j \in 1..n : ctx[j].depth = base + j - 1
               /\ Len(stack) = base + n
               /\ stack' = SubSeq(stack, 1, base) /\ ctx' = <<>>
+              /\ robjs' = Recorded(SubSeq(stack, base + 1, Len(stack)))
          /\ UNCHANGED <<saved, err>> /\ Log("raise", 0, 0, \A j \in 1..Len(ctx) : ctx[j].ok)
-GetState == /\ Guard /\ saved' = <<stack>> /\ UNCHANGED <<stack, ctx, err>> /\ Log("get_state", 0, 0, TRUE)
-SetState == /\ Guard /\ saved # <<>> /\ Len(ctx) = 0 /\ stack' = saved[1] /\ UNCHANGED <<ctx, saved, err>> /\ Log("set_state", 0, 0, TRUE)
-Next == \/ \E s \in Seeds : PushSeed(s) \/ Enter(s)
+GetState == /\ Guard /\ saved' = <<stack>> /\ UNCHANGED <<stack, ctx, err, robjs>> /\ Log("get_state", 0, 0, TRUE)
+\* the restored levels are unpickled COPIES: none of them is the re-usable Context object any more
+SetState == /\ Guard /\ saved # <<>> /\ Len(ctx) = 0 /\ stack' = [j \in 1..Len(saved[1]) |-> [saved[1][j] EXCEPT !.robj = 0]]
+            /\ UNCHANGED <<ctx, saved, err, robjs>> /\ Log("set_state", 0, 0, TRUE)
+Next == \/ \E s \in Seeds : PushSeed(s) \/ Enter(s) \/ Reenter(s)
         \/ \E n \in 1..MaxSpawn : \/ Spawn(n) \/ \E i \in 0..(n - 1) : SpawnPush(n, i) \/ EnterSpawned(n, i)
         \/ Pop \/ Exit \/ Raise \/ GetState \/ SetState
         \/ \E k \in 1..6 : Draw(k)     \* normal/uniform/pm1, real and complex/integer element types
@@ -77,12 +94,18 @@ Restores == [][ (Exit /\ err' = "none" /\ ctx[Len(ctx)].ok) => stack'[Len(stack'
 RestoresOnRaise == [][ (Raise /\ \A j \in 1..Len(ctx) : ctx[j].ok) => stack'[Len(stack')] = ctx[1].top ]_vars
 \* an unbalanced body is reported, never silently accepted with the wrong depth
 DepthChecked == [][ Exit => (err' = "inconsistent" <=> Len(stack) - 1 # ctx[Len(ctx)].depth) ]_vars
-SetGetIdentity == [][ (SetState /\ stack = saved[1]) => stack' = stack ]_vars
+SetGetIdentity == [][ (SetState /\ stack = saved[1] /\ \A j \in 1..Len(stack) : stack[j].robj = 0) => stack' = stack ]_vars
+\* re-entering a Context object starts its generator from the beginning again and continues the numbering of its children
+ReenterRepeats == [][ (nops' = nops + 1 /\ Len(stack') = Len(stack) + 1 /\ stack'[Len(stack')].robj # 0) =>
+                        /\ stack'[Len(stack')].drawn = 0
+                        /\ stack'[Len(stack')].spawned = (IF robjs[stack'[Len(stack')].robj] = -1 THEN 0 ELSE robjs[stack'[Len(stack')].robj]) ]_vars
 TypeOK == /\ Len(stack) >= 1 /\ Len(stack) <= MaxDepth /\ err \in {"none", "inconsistent"}
 \* draws inside a context depend only on its seed: the identity of a draw is <<seed path, index>> by construction;
 \* for the code it is a conformance obligation (every real draw equals the reference generator's draw).
 \* vacuity witnesses (expected to be violated)
 NeverInconsistent == err = "none"
 NeverNested == Len(ctx) < 2
+\* restriction for a targeted emission: only re-usable Context objects, their exits, spawns and two kinds of draws
+ReenterOnly == \A i \in 1..Len(hist) : hist[i].op \in {"reenter", "exit", "raise", "spawn"} \/ (hist[i].op = "draw" /\ hist[i].arg \in {1, 2})
 Emit == (EmitHist /\ (nops = MaxOps \/ err # "none")) => PrintT(ToJson([hist |-> hist, depth |-> Len(stack), err |-> err]))
 =============================================================================
